@@ -31,16 +31,19 @@ from pony.orm import core                         # noqa: E402
 
 N_LIT = int(os.environ.get('C06_N_LIT', '3'))      # inline string literal length
 N_ID = int(os.environ.get('C06_N_ID', '2'))        # identifier length (two identifiers per statement)
-N_S = int(os.environ.get('C06_N_S', '2'))          # LIKE: left-hand value length
+N_S = int(os.environ.get('C06_N_S', '3'))          # LIKE: left-hand value length
 N_X = int(os.environ.get('C06_N_X', '2'))          # LIKE: operand length
+N_INT = int(os.environ.get('C06_N_INT', '6'))      # decimal digits of an inline integer literal
 N_PAR = int(os.environ.get('C06_N_PAR', '4'))      # number of parameter occurrences
 
 PROVIDERS = ('sqlite', 'postgres', 'mysql', 'oracle')
 STYLES = ('qmark', 'format', 'numeric', 'named', 'pyformat')
 LIT_ALPHA = "'\\%\"as\u00e9"          # quote, backslash, percent, the other quote, ordinary, 's' (so that %s can be spelled), non-ASCII
 LIT_ALPHA_NB = "'%\"as\u00e9"         # the same without the backslash
-ID_ALPHA = "\"`.a\u00e9"              # both quote characters, the dot (compound names), ordinary, non-ASCII
-ID_ALPHA_NQ = "`.a\u00e9"             # Oracle: no way to spell a double quote inside a quoted identifier
+ID_ALPHA = "\"`.a"                  # both quote characters, the dot (compound names), an ordinary character
+ID_ALPHA_NQ = "`.a"                  # Oracle: no way to spell a double quote inside a quoted identifier
+ID_ALPHA_P = ID_ALPHA + "%"          # SQLite / Oracle statements never pass through % interpolation
+ID_ALPHA_NQ_P = ID_ALPHA_NQ + "%"
 LIKE_ALPHA = "%_!ab"                  # LIKE metacharacters, pony's escape character, two ordinary characters
 LIKE_ALPHA_B = "%_!a\\"               # ... and the backslash (default escape character of PostgreSQL / MySQL)
 
@@ -54,7 +57,7 @@ def get_db(pname):
     db = E0.sqlite_memory_database() if pname == 'sqlite' else E0.mock_database(pname)
 
     class T(db.Entity):
-        s = Required(str)
+        s = Opt(str)
         x = Opt(str)
     db.generate_mapping(check_tables=False, create_tables=(pname == 'sqlite'))
     _dbs[pname] = db
@@ -341,7 +344,7 @@ def lit_str_mysql_no_backslash_escapes(s: str) -> bool:
 
 def lit_str_styles(s: str, style: int) -> bool:
     """
-    pre: len(s) <= N_LIT
+    pre: len(s) <= N_LIT - 1
     pre: all(c in LIT_ALPHA for c in s)
     pre: 0 <= style < 5
     post: _
@@ -356,6 +359,7 @@ def lit_str_styles(s: str, style: int) -> bool:
 def lit_int(n: int, dialect: int) -> bool:
     """
     pre: 0 <= dialect < 4
+    pre: -10 ** N_INT < n < 10 ** N_INT
     post: _
     """
     pname = PROVIDERS[dialect]
@@ -414,6 +418,7 @@ def mod_percent(s: str, dialect: int, a: int) -> bool:
 # ------------------------------------------------------------------ part 3: parameter numbering
 
 KEYS = (('a', None, None), ('b', 0, None), ('b', 1, None))
+NASTY = "? :1 :p1 %s %(p1)s %% '"         # inline literal next to the parameters: every placeholder spelling, inside quotes
 
 
 def _numbering(prov, dialect, n, ks, v0, v1, v2, lit):
@@ -437,49 +442,44 @@ def _numbering_style(style, n, k0, k1, k2, k3, v0, v1, v2, lit):
     return _numbering(StyleProvider(style), 'sqlite', n, (k0, k1, k2, k3), v0, v1, v2, lit)
 
 
-def numbering_qmark(n: int, k0: int, k1: int, k2: int, k3: int, v0: int, v1: int, v2: int, lit: str) -> bool:
+def numbering_qmark(n: int, k0: int, k1: int, k2: int, k3: int, v0: int, v1: int, v2: int) -> bool:
     """
     pre: 0 <= n <= N_PAR and 0 <= k0 < 3 and 0 <= k1 < 3 and 0 <= k2 < 3 and 0 <= k3 < 3
-    pre: len(lit) <= 1 and all(c in "?:%" for c in lit)
     post: _
     """
-    return ok(_numbering_style('qmark', n, k0, k1, k2, k3, v0, v1, v2, lit))
+    return ok(_numbering_style('qmark', n, k0, k1, k2, k3, v0, v1, v2, NASTY))
 
 
-def numbering_format(n: int, k0: int, k1: int, k2: int, k3: int, v0: int, v1: int, v2: int, lit: str) -> bool:
+def numbering_format(n: int, k0: int, k1: int, k2: int, k3: int, v0: int, v1: int, v2: int) -> bool:
     """
     pre: 0 <= n <= N_PAR and 0 <= k0 < 3 and 0 <= k1 < 3 and 0 <= k2 < 3 and 0 <= k3 < 3
-    pre: len(lit) <= 1 and all(c in "?:%" for c in lit)
     post: _
     """
-    return ok(_numbering_style('format', n, k0, k1, k2, k3, v0, v1, v2, lit))
+    return ok(_numbering_style('format', n, k0, k1, k2, k3, v0, v1, v2, NASTY))
 
 
-def numbering_numeric(n: int, k0: int, k1: int, k2: int, k3: int, v0: int, v1: int, v2: int, lit: str) -> bool:
+def numbering_numeric(n: int, k0: int, k1: int, k2: int, k3: int, v0: int, v1: int, v2: int) -> bool:
     """
     pre: 0 <= n <= N_PAR and 0 <= k0 < 3 and 0 <= k1 < 3 and 0 <= k2 < 3 and 0 <= k3 < 3
-    pre: len(lit) <= 1 and all(c in "?:%" for c in lit)
     post: _
     """
-    return ok(_numbering_style('numeric', n, k0, k1, k2, k3, v0, v1, v2, lit))
+    return ok(_numbering_style('numeric', n, k0, k1, k2, k3, v0, v1, v2, NASTY))
 
 
-def numbering_named(n: int, k0: int, k1: int, k2: int, k3: int, v0: int, v1: int, v2: int, lit: str) -> bool:
+def numbering_named(n: int, k0: int, k1: int, k2: int, k3: int, v0: int, v1: int, v2: int) -> bool:
     """
     pre: 0 <= n <= N_PAR and 0 <= k0 < 3 and 0 <= k1 < 3 and 0 <= k2 < 3 and 0 <= k3 < 3
-    pre: len(lit) <= 1 and all(c in "?:%" for c in lit)
     post: _
     """
-    return ok(_numbering_style('named', n, k0, k1, k2, k3, v0, v1, v2, lit))
+    return ok(_numbering_style('named', n, k0, k1, k2, k3, v0, v1, v2, NASTY))
 
 
-def numbering_pyformat(n: int, k0: int, k1: int, k2: int, k3: int, v0: int, v1: int, v2: int, lit: str) -> bool:
+def numbering_pyformat(n: int, k0: int, k1: int, k2: int, k3: int, v0: int, v1: int, v2: int) -> bool:
     """
     pre: 0 <= n <= N_PAR and 0 <= k0 < 3 and 0 <= k1 < 3 and 0 <= k2 < 3 and 0 <= k3 < 3
-    pre: len(lit) <= 1 and all(c in "?:%" for c in lit)
     post: _
     """
-    return ok(_numbering_style('pyformat', n, k0, k1, k2, k3, v0, v1, v2, lit))
+    return ok(_numbering_style('pyformat', n, k0, k1, k2, k3, v0, v1, v2, NASTY))
 
 
 def numbering_dialects(dialect: int, n: int, k0: int, k1: int, k2: int, v0: int, v1: int, v2: int) -> bool:
@@ -490,7 +490,7 @@ def numbering_dialects(dialect: int, n: int, k0: int, k1: int, k2: int, v0: int,
     """
     # the shipped builders (SQLiteBuilder, PGSQLBuilder, MySQLBuilder, OraBuilder) with their own style and lexer
     pname = PROVIDERS[dialect]
-    return ok(_numbering(provider(pname), pname, n, (k0, k1, k2), v0, v1, v2, '%'))
+    return ok(_numbering(provider(pname), pname, n, (k0, k1, k2), v0, v1, v2, NASTY))
 
 
 def param_converter(dialect: int, v: str, w: str, first: bool) -> bool:
@@ -531,8 +531,8 @@ def _ident(pname, alias, name):
 
 def ident_sqlite(alias: str, name: str) -> bool:
     """
-    pre: 1 <= len(alias) <= N_ID and 1 <= len(name) <= N_ID
-    pre: all(c in ID_ALPHA + '%' for c in alias) and all(c in ID_ALPHA + '%' for c in name)
+    pre: 1 <= len(alias) <= N_ID - 1 and 1 <= len(name) <= N_ID
+    pre: all(c in ID_ALPHA_P for c in alias) and all(c in ID_ALPHA_P for c in name)
     post: _
     """
     return ok(_ident('sqlite', alias, name))
@@ -540,7 +540,7 @@ def ident_sqlite(alias: str, name: str) -> bool:
 
 def ident_postgres(alias: str, name: str) -> bool:
     """
-    pre: 1 <= len(alias) <= N_ID and 1 <= len(name) <= N_ID
+    pre: 1 <= len(alias) <= N_ID - 1 and 1 <= len(name) <= N_ID
     pre: all(c in ID_ALPHA for c in alias) and all(c in ID_ALPHA for c in name)
     post: _
     """
@@ -549,7 +549,7 @@ def ident_postgres(alias: str, name: str) -> bool:
 
 def ident_mysql(alias: str, name: str) -> bool:
     """
-    pre: 1 <= len(alias) <= N_ID and 1 <= len(name) <= N_ID
+    pre: 1 <= len(alias) <= N_ID - 1 and 1 <= len(name) <= N_ID
     pre: all(c in ID_ALPHA for c in alias) and all(c in ID_ALPHA for c in name)
     post: _
     """
@@ -558,8 +558,8 @@ def ident_mysql(alias: str, name: str) -> bool:
 
 def ident_oracle(alias: str, name: str) -> bool:
     """
-    pre: 1 <= len(alias) <= N_ID and 1 <= len(name) <= N_ID
-    pre: all(c in ID_ALPHA_NQ + '%' for c in alias) and all(c in ID_ALPHA_NQ + '%' for c in name)
+    pre: 1 <= len(alias) <= N_ID - 1 and 1 <= len(name) <= N_ID
+    pre: all(c in ID_ALPHA_NQ_P for c in alias) and all(c in ID_ALPHA_NQ_P for c in name)
     post: _
     """
     return ok(_ident('oracle', alias, name))
@@ -567,7 +567,7 @@ def ident_oracle(alias: str, name: str) -> bool:
 
 def ident_oracle_dquote(alias: str, name: str) -> bool:
     """
-    pre: 1 <= len(alias) <= N_ID and 1 <= len(name) <= N_ID
+    pre: 1 <= len(alias) <= N_ID - 1 and 1 <= len(name) <= N_ID
     pre: all(c in ID_ALPHA for c in alias) and all(c in ID_ALPHA for c in name)
     pre: '"' in alias or '"' in name
     post: _
@@ -588,7 +588,7 @@ def _ident_percent(pname, alias, name):
 
 def ident_percent_postgres(alias: str, name: str) -> bool:
     """
-    pre: 1 <= len(alias) <= N_ID and 1 <= len(name) <= N_ID
+    pre: 1 <= len(alias) <= N_ID - 1 and 1 <= len(name) <= N_ID
     pre: all(c in 'a%s' for c in alias) and all(c in 'a%s' for c in name)
     pre: '%' in alias or '%' in name
     post: _
@@ -599,7 +599,7 @@ def ident_percent_postgres(alias: str, name: str) -> bool:
 
 def ident_percent_mysql(alias: str, name: str) -> bool:
     """
-    pre: 1 <= len(alias) <= N_ID and 1 <= len(name) <= N_ID
+    pre: 1 <= len(alias) <= N_ID - 1 and 1 <= len(name) <= N_ID
     pre: all(c in 'a%s' for c in alias) and all(c in 'a%s' for c in name)
     pre: '%' in alias or '%' in name
     post: _
@@ -613,41 +613,71 @@ class PatternError(Exception):
     pass
 
 
-def ref_like(s, pattern, esc):
-    """SQL LIKE, case sensitive: `%` any sequence, `_` any one character, the character after `esc` stands for itself
-    (a pattern ending in `esc` is an error)."""
+ANY, ONE, LIT = 2, 1, 0
+
+
+def like_items(pattern, esc):
+    """SQL LIKE pattern -> items: (ANY,) for `%`, (ONE,) for `_`, (LIT, c) for c; the character after `esc` stands for
+    itself (a pattern ending in `esc` is an error)."""
     items = []
     i, n = 0, len(pattern)
     while i < n:
         c = pattern[i]
         if esc is not None and c == esc:
             if i + 1 >= n: raise PatternError('pattern ends with the escape character')
-            items.append((0, pattern[i + 1])); i += 2
+            items.append((LIT, pattern[i + 1])); i += 2
         elif c == '%':
-            items.append((2, None)); i += 1
+            items.append((ANY, None)); i += 1
         elif c == '_':
-            items.append((1, None)); i += 1
+            items.append((ONE, None)); i += 1
         else:
-            items.append((0, c)); i += 1
-    return _match(s, 0, items, 0)
+            items.append((LIT, c)); i += 1
+    return items
 
 
-def _match(s, si, items, pi):
+def ref_like(s, pattern, esc):
+    """s LIKE pattern ESCAPE esc (case sensitive); validated against real SQLite by checks/c06.py"""
+    return like_match(s, 0, like_items(pattern, esc), 0)
+
+
+def like_match(s, si, items, pi):
     if pi == len(items): return si == len(s)
     kind, ch = items[pi]
-    if kind == 2:
+    if kind == ANY:
         k = si
         while True:
-            if _match(s, k, items, pi + 1): return True
+            if like_match(s, k, items, pi + 1): return True
             if k >= len(s): return False
             k += 1
     if si >= len(s): return False
-    if kind == 1 or s[si] == ch: return _match(s, si + 1, items, pi + 1)
+    if kind == ONE or s[si] == ch: return like_match(s, si + 1, items, pi + 1)
     return False
+
+
+def collapse(items):
+    """adjacent `%` items mean the same as one"""
+    out = []
+    for it in items:
+        if it[0] == ANY and out and out[-1][0] == ANY: continue
+        out.append(it)
+    return out
+
+
+def canonical_items(op, x):
+    """the pattern that MEANS startswith(x) / endswith(x) / x in .. : the characters of x as literals, `%` at the open end(s)"""
+    return collapse(([(ANY, None)] if op != 0 else []) + [(LIT, c) for c in x] + ([(ANY, None)] if op != 1 else []))
 
 
 class EvalError(Exception):
     pass
+
+
+def sql_replace(s, a, b):
+    """SQL replace(): every occurrence of a in s becomes b; an empty a leaves s alone"""
+    if len(a) == 0: return s
+    if len(a) == 1:
+        return ''.join([(b if c == a else c) for c in s])
+    return s.replace(a, b)
 
 
 def sql_eval(toks, pos, cols):
@@ -669,7 +699,7 @@ def sql_eval(toks, pos, cols):
             pos += 1
         if t[1].lower() == 'concat': return ''.join(args), pos + 1
         if len(args) != 3: raise EvalError(pos)
-        return (args[0].replace(args[1], args[2]) if len(args[1]) > 0 else args[0]), pos + 1
+        return sql_replace(args[0], args[1], args[2]), pos + 1
     if t == ('p', '('):
         parts = []
         pos += 1
@@ -683,8 +713,8 @@ def sql_eval(toks, pos, cols):
     raise EvalError(pos)
 
 
-def like_eval(toks, cols, default_escape):
-    """truth value of  <expr> [NOT] LIKE <expr> [ESCAPE <expr>]"""
+def like_parts(toks, cols, default_escape):
+    """<expr> [NOT] LIKE <expr> [ESCAPE <expr>]  ->  (left value, negated, pattern value, escape character or None)"""
     left, pos = sql_eval(toks, 0, cols)
     negate = False
     if toks[pos] == ('w', 'NOT'):
@@ -698,16 +728,17 @@ def like_eval(toks, cols, default_escape):
         esc, pos = sql_eval(toks, pos + 1, cols)
         if len(esc) != 1: raise EvalError(pos)
     if pos != len(toks): raise EvalError(pos)
-    r = ref_like(left, pattern, esc)
-    return (not r) if negate else r
+    return left, negate, pattern, esc
 
 
 DEFAULT_ESCAPE = {'sqlite': None, 'oracle': None, 'postgres': '\\', 'mysql': '\\'}
 OPS = ('startswith', 'endswith', 'in', 'not in')
+COL_S = '\x00column-s'
 
 
-def _like(pname, op, kind, s, x):
-    """kind: 'const' (operand written in the query text), 'param' (outer variable), 'col' (another column)"""
+def like_sql(pname, op, kind, x):
+    """REAL translation + REAL builder: what goes to cursor.execute for  t.s.startswith(x) / t.s.endswith(x) / x in t.s / x not in t.s
+    kind: 'const' (operand written in the query text), 'param' (outer variable), 'col' (another column)"""
     tr = translator(pname)
     prov = provider(pname)
     with tr:
@@ -721,108 +752,126 @@ def _like(pname, op, kind, s, x):
         else: m = left.contains(item, not_in=True)
         ast = m.getsql()[0]
     sql, adapter = build(prov, ast)
-    toks = db_sees(sql, adapter({'x': x}), pname, prov.paramstyle)
+    return sql, adapter({'x': x})
+
+
+def _like(pname, op, kind, x):
+    """the pattern the server evaluates, decoded under the dialect's LIKE rules, must be the canonical pattern for x"""
+    prov = provider(pname)
+    sql, args = like_sql(pname, op, kind, x)
+    toks = db_sees(sql, args, pname, prov.paramstyle)
     if toks is None: return False
     try:
-        got = like_eval(toks, {'s': s, 'x': x}, DEFAULT_ESCAPE[pname])
+        left, negate, pattern, esc = like_parts(toks, {'s': COL_S, 'x': x}, DEFAULT_ESCAPE[pname])
+        items = collapse(like_items(pattern, esc))
     except (EvalError, PatternError, IndexError):
         return False
-    if op == 0: want = s.startswith(x)
-    elif op == 1: want = s.endswith(x)
-    elif op == 2: want = x in s
-    else: want = x not in s
-    return got == want
+    return left == COL_S and negate == (op == 3) and items == canonical_items(op, x)
 
 
-def like_const_sqlite(op: int, s: str, x: str) -> bool:
+def like_lemma(op: int, s: str, x: str) -> bool:
     """
-    pre: 0 <= op < 4 and len(s) <= N_S and len(x) <= N_X
-    pre: all(c in LIKE_ALPHA_B for c in s) and all(c in LIKE_ALPHA_B for c in x)
+    pre: 0 <= op < 3 and len(s) <= N_S and len(x) <= N_X
+    pre: all(c in "%_a" for c in s) and all(c in "%_a" for c in x)
     post: _
     """
-    return ok(_like('sqlite', op, 'const', s, x))
+    # no pony code: the canonical pattern, under the reference matcher, means Python's startswith / endswith / in
+    got = like_match(s, 0, canonical_items(op, x), 0)
+    want = s.startswith(x) if op == 0 else s.endswith(x) if op == 1 else x in s
+    return ok(got == want)
 
 
-def like_const_oracle(op: int, s: str, x: str) -> bool:
+def like_const_sqlite(op: int, x: str) -> bool:
     """
-    pre: 0 <= op < 4 and len(s) <= N_S and len(x) <= N_X
-    pre: all(c in LIKE_ALPHA_B for c in s) and all(c in LIKE_ALPHA_B for c in x)
+    pre: 0 <= op < 4 and len(x) <= N_X
+    pre: all(c in LIKE_ALPHA_B for c in x)
     post: _
     """
-    return ok(_like('oracle', op, 'const', s, x))
+    return ok(_like('sqlite', op, 'const', x))
 
 
-def like_const_postgres(op: int, s: str, x: str) -> bool:
+def like_const_oracle(op: int, x: str) -> bool:
     """
-    pre: 0 <= op < 4 and len(s) <= N_S and len(x) <= N_X
-    pre: all(c in LIKE_ALPHA for c in s) and all(c in LIKE_ALPHA for c in x)
+    pre: 0 <= op < 4 and len(x) <= N_X
+    pre: all(c in LIKE_ALPHA_B for c in x)
     post: _
     """
-    return ok(_like('postgres', op, 'const', s, x))
+    return ok(_like('oracle', op, 'const', x))
 
 
-def like_const_mysql(op: int, s: str, x: str) -> bool:
+def like_const_postgres(op: int, x: str) -> bool:
     """
-    pre: 0 <= op < 4 and len(s) <= N_S and len(x) <= N_X
-    pre: all(c in LIKE_ALPHA for c in s) and all(c in LIKE_ALPHA for c in x)
+    pre: 0 <= op < 4 and len(x) <= N_X
+    pre: all(c in LIKE_ALPHA_B for c in x)
+    pre: not ('\\\\' in x and '%' not in x and '_' not in x)
     post: _
     """
-    return ok(_like('mysql', op, 'const', s, x))
+    # every constant operand outside the region of like_const_backslash_postgres
+    return ok(_like('postgres', op, 'const', x))
 
 
-def like_const_backslash_postgres(op: int, s: str, x: str) -> bool:
+def like_const_mysql(op: int, x: str) -> bool:
     """
-    pre: 0 <= op < 4 and len(s) <= N_S and len(x) <= N_X
-    pre: all(c in LIKE_ALPHA_B for c in s) and all(c in LIKE_ALPHA_B for c in x)
-    pre: '\\\\' in x
+    pre: 0 <= op < 4 and len(x) <= N_X
+    pre: all(c in LIKE_ALPHA for c in x)
     post: _
     """
-    # complement region: constant operand containing a backslash (PostgreSQL's LIKE uses `\\` as the escape character when no ESCAPE is given)
-    return ok(_like('postgres', op, 'const', s, x))
+    return ok(_like('mysql', op, 'const', x))
 
 
-def like_nonconst_sqlite(op: int, col: bool, s: str, x: str) -> bool:
+def like_const_backslash_postgres(op: int, x: str) -> bool:
     """
-    pre: 0 <= op < 4 and len(s) <= N_S and len(x) <= N_X
-    pre: all(c in LIKE_ALPHA_B for c in s) and all(c in LIKE_ALPHA_B for c in x)
+    pre: 0 <= op < 4 and len(x) <= N_X
+    pre: all(c in LIKE_ALPHA_B for c in x)
+    pre: '\\\\' in x and '%' not in x and '_' not in x
     post: _
     """
-    return ok(_like('sqlite', op, 'col' if col else 'param', s, x))
+    # complement region: constant operand containing a backslash and no LIKE metacharacter (PostgreSQL's LIKE uses `\\` as the escape character when no ESCAPE is given)
+    return ok(_like('postgres', op, 'const', x))
 
 
-def like_nonconst_postgres(op: int, col: bool, s: str, x: str) -> bool:
+def like_nonconst_sqlite(op: int, col: bool, x: str) -> bool:
     """
-    pre: 0 <= op < 4 and len(s) <= N_S and len(x) <= N_X
-    pre: all(c in LIKE_ALPHA_B for c in s) and all(c in LIKE_ALPHA_B for c in x)
+    pre: 0 <= op < 4 and len(x) <= N_X
+    pre: all(c in LIKE_ALPHA_B for c in x)
     post: _
     """
-    return ok(_like('postgres', op, 'col' if col else 'param', s, x))
+    return ok(_like('sqlite', op, 'col' if col else 'param', x))
 
 
-def like_nonconst_mysql(op: int, col: bool, s: str, x: str) -> bool:
+def like_nonconst_postgres(op: int, col: bool, x: str) -> bool:
     """
-    pre: 0 <= op < 4 and len(s) <= N_S and len(x) <= N_X
-    pre: all(c in LIKE_ALPHA_B for c in s) and all(c in LIKE_ALPHA_B for c in x)
+    pre: 0 <= op < 4 and len(x) <= N_X
+    pre: all(c in LIKE_ALPHA_B for c in x)
     post: _
     """
-    return ok(_like('mysql', op, 'col' if col else 'param', s, x))
+    return ok(_like('postgres', op, 'col' if col else 'param', x))
 
 
-def like_nonconst_oracle(op: int, col: bool, s: str, x: str) -> bool:
+def like_nonconst_mysql(op: int, col: bool, x: str) -> bool:
     """
-    pre: 0 <= op < 4 and len(s) <= N_S and len(x) <= N_X
-    pre: all(c in LIKE_ALPHA_B for c in s) and all(c in LIKE_ALPHA_B for c in x)
+    pre: 0 <= op < 4 and len(x) <= N_X
+    pre: all(c in LIKE_ALPHA_B for c in x)
     post: _
     """
-    return ok(_like('oracle', op, 'col' if col else 'param', s, x))
+    return ok(_like('mysql', op, 'col' if col else 'param', x))
 
 
-def like_const_backslash_mysql(op: int, s: str, x: str) -> bool:
+def like_nonconst_oracle(op: int, col: bool, x: str) -> bool:
     """
-    pre: 0 <= op < 4 and len(s) <= N_S and len(x) <= N_X
-    pre: all(c in LIKE_ALPHA_B for c in s) and all(c in LIKE_ALPHA_B for c in x)
+    pre: 0 <= op < 4 and len(x) <= N_X
+    pre: all(c in LIKE_ALPHA_B for c in x)
+    post: _
+    """
+    return ok(_like('oracle', op, 'col' if col else 'param', x))
+
+
+def like_const_backslash_mysql(op: int, x: str) -> bool:
+    """
+    pre: 0 <= op < 4 and len(x) <= N_X
+    pre: all(c in LIKE_ALPHA_B for c in x)
     pre: '\\\\' in x
     post: _
     """
     # complement region on MySQL (backslash is both a literal escape and the default LIKE escape)
-    return ok(_like('mysql', op, 'const', s, x))
+    return ok(_like('mysql', op, 'const', x))
